@@ -202,17 +202,45 @@ def r_stop(prog, R):
             only = all("mystatus" in render(cc) or render(cc) == "dnsrec" for cc, p in fs)
             has = cond_holds(fs, lambda op, l, rr: op == "==" and is_var(l, "mystatus") and name_of_const(rr) == "ARES_ENODATA")
             mem = has and only
+    # at the end of the list: no-data wins over whatever the last candidate said (NXDOMAIN, or the soft SERVFAIL/REFUSED of a single label);
+    # every end_squery reached after the last candidate either reports ENODATA or is reached only when no candidate was without data
     fin = False
+    other_bad = None
     mf = MustFacts(s)
+    region = None
+    for bid in s.rpo():
+        br = s.branch(bid)
+        if br:
+            op, l, rr = norm_cmp(br[0], True)
+            if rr is not None and op == "<" and is_field(l, "next_name_idx") and is_field(rr, "names_cnt"):
+                region = reach_avoiding(s, br[2], (), None, 0)
+                region = set(region) | {br[2]}
+    if region is None:
+        r.broke("search_callback: end-of-list test (next_name_idx < names_cnt) not found")
+        region = set()
     for b, i, c in s.calls_to("end_squery"):
+        if b.id not in region:
+            continue
+        facts = mf.cond_facts_at(b, i)
+        def _nd(want, facts=facts):
+            for cc, p in facts:
+                op, l, rr = norm_cmp(cc, p)
+                if is_field(l, "ever_got_nodata") and op == want:
+                    return True
+            return False
         if name_of_const(call_arg(c, 1)) == "ARES_ENODATA":
-            facts = mf.cond_facts_at(b, i)
-            if any(p and is_field(cc, "ever_got_nodata") for cc, p in facts) and cond_holds(facts, lambda op, l, rr: op == "==" and is_var(l, "mystatus") and name_of_const(rr) == "ARES_ENOTFOUND"):
+            if _nd("truth"):
                 fin = True
-    if mem and fin:
-        r.ok("search: NODATA remembered and preferred over a final NXDOMAIN", s.loc(s.ln))
+        elif not _nd("false") and not cond_holds(facts, lambda op, l, rr: op == "==" and is_var(l, "mystatus") and name_of_const(rr) == "ARES_ENODATA"):
+            other_bad = c
+    if mem and fin and other_bad is None:
+        r.ok("search: NODATA remembered and reported when the list is exhausted", s.loc(s.ln))
+    elif other_bad is not None and mem:
+        r.viol("search: NODATA remembered and reported when the list is exhausted", s.name, s.loc(other_bad["ln"]), "after the last candidate the search can end with the last candidate's status although an earlier candidate "
+               "existed without data (the no-data memory is only consulted when the last status is NXDOMAIN): with a single-label last candidate answering SERVFAIL/REFUSED ares_search reports that failure where "
+               "ares_getaddrinfo -- and the rule 'no-data if any candidate existed without data' -- report ARES_ENODATA")
     else:
-        r.viol("search: NODATA remembered and preferred over a final NXDOMAIN", s.name, s.loc(s.ln), "no-data memory broken (set=%s, used=%s)" % (mem, fin))
+        r.viol("search: NODATA remembered and reported when the list is exhausted", s.name, s.loc(s.ln), "no-data memory broken (set=%s, used=%s)" % (mem, fin))
     # getaddrinfo walker
     h = prog.func("host_callback", "ares_getaddrinfo.c")
     ops = [render(call_arg(c, 0)) for _, _, c in h.calls_to("ares_name_label_cnt")]
